@@ -2,12 +2,13 @@
 
 from __future__ import annotations
 
+import os
 import struct
 
 from hypothesis import strategies as st
 
 from vlib import chunktools, specmodel
-from vlib.harness import PropertyViolation, run_property
+from vlib.harness import REPO, PropertyViolation, run_property
 
 PROPERTY_ID = "C11"
 LEVEL = "exploration"
@@ -44,7 +45,45 @@ def plan(tier):
     per = 200 if tier == "quick" else 3000
     for i in range(5):
         descs.append({"kind": "random", "examples": per})
+    from checks import c05
+
+    fs = [os.path.relpath(f, os.path.join(REPO, "tests", "files")) for f in c05.fixture_files()]
+    for i in range(4):
+        # option assignments in a process that has just read a file written by SunVox itself (older layouts)
+        descs.append({"kind": "after_fixture", "files": fs[i::4]})
     return descs
+
+
+def load_fixture(rel):
+    from rv.api import read_sunvox_file
+
+    return read_sunvox_file(os.path.join(REPO, "tests", "files", rel))
+
+
+def option_types_in(obj, out=None):
+    out = set() if out is None else out
+    mods = [obj.module] if type(obj).__name__ == "Synth" else [m_ for m_ in obj.modules if m_ is not None]
+    for m_ in mods:
+        out.add(type(m_).__name__)
+        if type(m_).__name__ == "MetaModule" and getattr(m_, "project", None) is not None:
+            option_types_in(m_.project, out)
+    return out
+
+
+def run_after_fixture(ctx, files):
+    spec = specmodel.load()
+    for rel in files:
+        present = option_types_in(load_fixture(rel))
+        for tname in OPTION_TYPES:
+            if tname not in present:
+                continue
+            mt = spec[tname]
+            for o in mt.options:
+                vals = [False, True] if o.size == 1 else sorted({0, 1, (1 << o.size) - 1} | ({o.min, o.max // 2 + 1, o.max - 1, o.max, o.max + 1} if o.min is not None else {(1 << o.size) // 2}))
+                for v in vals:
+                    ctx.label("assignment_after_reading_a_fixture")
+                    guarded(ctx, tname, [[o.name, v]], after_fixture=rel)
+        ctx.sample({"after_fixture": rel, "types_with_options": sorted(t for t in OPTION_TYPES if t in present)})
 
 
 def cls_of(tname):
@@ -233,12 +272,14 @@ def run_layout(ctx):
         ctx.sample({"type": tname, "options": len(mt.options), "bits": len(used)})
 
 
-def guarded(ctx, tname, seq, then=()):
+def guarded(ctx, tname, seq, then=(), after_fixture=None):
     ctx.case()
     try:
+        if after_fixture:
+            load_fixture(after_fixture)
         state = run_assignment(ctx, tname, seq, then=then)
     except PropertyViolation as v:
-        ctx.check(False, v.sub_oracle, v.detail, key=v.key, recipe={"type": tname, "seq": seq, "then": [list(t) for t in then]})
+        ctx.check(False, v.sub_oracle, v.detail, key=v.key, recipe={"type": tname, "seq": seq, "then": [list(t) for t in then], "after_fixture": after_fixture})
         return
     except Exception as e:  # noqa: BLE001
         from vlib.harness import as_violation
@@ -246,7 +287,7 @@ def guarded(ctx, tname, seq, then=()):
         v = as_violation(e, "C11", "assign")
         if v is None:
             raise
-        ctx.check(False, v.sub_oracle, v.detail, key=v.key + ":" + tname, recipe={"type": tname, "seq": seq, "then": [list(t) for t in then]})
+        ctx.check(False, v.sub_oracle, v.detail, key=v.key + ":" + tname, recipe={"type": tname, "seq": seq, "then": [list(t) for t in then], "after_fixture": after_fixture})
         return
     mt = specmodel.load()[tname]
     if labels_for(ctx, mt, seq + [x for _, s2 in then for x in s2], state) or then:
@@ -356,6 +397,8 @@ def run_shard(ctx, desc):
         run_exclusive_split(ctx, desc["type"])
     elif k == "pairs":
         run_pairs(ctx, desc["type"], desc["part"], desc["parts"])
+    elif k == "after_fixture":
+        run_after_fixture(ctx, desc["files"])
     else:
 
         def body(case):
@@ -376,6 +419,8 @@ def replay(ctx, doc):
     if "case" in r:
         r = r["case"]
     if "seq" in r:
+        if r.get("after_fixture"):
+            load_fixture(r["after_fixture"])
         run_assignment(ctx, r["type"], r["seq"], then=r.get("then", ()))
     else:
         from vlib.harness import Ctx
